@@ -5,6 +5,7 @@ import Iota.Gen.Slip10
 import Iota.Tie.Expect
 import Iota.Model.Slip10
 import Iota.Proofs.Vectors.Slip10
+import Iota.Tie.C17
 
 namespace Iota.Tie.Slip10
 open Iota
@@ -57,5 +58,16 @@ theorem rest :
     Gen.Slip10.rest_elliptic = Expect.Slip10_rest_elliptic ∧
     Gen.Slip10.rest_eddsa = Expect.Slip10_rest_eddsa :=
   ⟨rfl, rfl, rfl⟩
+
+/-- the secp256k1 curve the SLIP-10 derivations run on (`PublicKey.Shift` calls `ScalarBaseMult` and `Add`; C08's
+unconditional statement for secp256k1 is about the C17 model): its constants are the regenerated ones, the exported copy
+of the file is byte-identical, and the two entry points the derivation uses — regenerated as code from secp256k1.go on
+every run — equal the C17 model for all inputs (`Tie/C17`, `Tie/SecpCode`). -/
+theorem secp256k1_code {inv : Int → Int → Option Int} (E : Tie.SecpCode.Externs inv) :
+    Gen.Secp256k1.copiesIdentical = true ∧
+    (∀ x1 y1 x2 y2 : Int, Gen.Secp256k1Code.btccurve.koblitzCurve_Add inv Secp256k1.P x1 y1 x2 y2 = Secp256k1.add x1 y1 x2 y2) ∧
+    (∀ k : List UInt8, Gen.Secp256k1Code.btccurve.koblitzCurve_ScalarBaseMult inv Secp256k1.P Secp256k1.Gx Secp256k1.Gy
+        (k.map UInt8.toBitVec) = Secp256k1.scalarBaseMult k) :=
+  ⟨Tie.C17.copies_identical, Tie.C17.code_add E, Tie.C17.code_scalarBaseMult E⟩
 
 end Iota.Tie.Slip10
